@@ -31,7 +31,8 @@ _sp = _ilu.spec_from_file_location('spec_C02_for_C01', _os.path.join(_os.path.di
 _leaf_queries = queries
 META['functions'] = META['functions'] + ['driver family: Template::Render = TemplateCore::parse + render*/getValue/evaluate (Template.hpp) with the real Value<char>, on exact-size template buffers']
 META['bounds'] += (' || driver family: every member of the C02 template family and (quick: every 6th of four templates, thorough: every) truncation point of it, in an exact-size heap buffer, rendered twice against real value trees with symbolic leaf strings: '
-                   'every access inside the buffer / owned memory, no trap, termination within the unwinding bounds')
+                   'every access inside the buffer / owned memory, no trap, termination within the unwinding bounds; mis-nesting family: every sequence of one opener inside a loop met by one closer (quick, 15) / '
+                   'every pair of the 11 structural tokens and every triple that starts with <loop> or <if> (thorough, 363) of {math:1  {svar:p,  {if case="1" true="  <loop value="v">  <if case="1">  </loop>  </if>  <else>  }  {var:v}  "')
 META['outside'] = META['outside'].replace('the scanner DRIVER TemplateCore::parse and the renderer over symbolic template text: out of reach', 'the scanner driver and the renderer over SYMBOLIC template text: out of reach (covered only on the listed concrete template family and its truncations)')
 MALFORMED = [('if_if_loop', '<if case="1"><if case="1"><loop value="v">{var:v}</loop></if></if>', 3), ('math_else', '{math:1+1<else>}', 0), ('mod_zero', '{math:5%0}', 0), ('div_zero', '{math:5/0}', 0),
              ('unclosed_loop', '<loop value="v">{var:v}', 3), ('else_without_if', 'a<else>b</if>c', 0), ('nested_iif', '{if case="1" true="{if case="1" true="x"}"}', 0),
@@ -54,4 +55,29 @@ def queries(tier):
     for name, tpl, val in MALFORMED:
         qs.append(Query('driver/malformed/%s' % name, 'C02_render.cpp', 'h_render', {'TPL': _json.dumps(tpl), 'VAL': val, 'EXPECT': 'L("")', 'CUT': len(tpl), 'LEAFN': 1}, bounds=_c02.B(len(tpl)), default_unwind=5,
                         default_rec=4, rec_bounds={'~Value': 2, 'render|evaluate|parseExpressions': 5}, timeout=600, mem_gb=14))
+    # mis-nesting family: every short sequence of STRUCTURAL tokens (openers, closers, separators) through the un-stubbed driver: each closer must
+    # only ever close a tag of its own kind and an opener that never finds its end must degrade to text (safety + purity assertions only)
+    for name, tpl in nest_family(tier):
+        nb = _c02.B(len(tpl)); nb['EscapeHTMLSpecialChars'] = len(tpl) + 2; nb['Copy'] = 96     # an unresolved tag is echoed through the escaper unit by unit
+        qs.append(Query('driver/nest/%s' % name, 'C02_render.cpp', 'h_render', {'TPL': _json.dumps(tpl), 'VAL': 4, 'EXPECT': 'L("")', 'CUT': len(tpl), 'LEAFN': 1}, bounds=nb, default_unwind=5,
+                        default_rec=4, rec_bounds={'~Value': 2, 'render|evaluate|parseExpressions': 5}, timeout=600, mem_gb=14))
     return qs
+NEST_TOKENS = [('math', '{math:1'), ('svar', '{svar:p,'), ('iif', '{if case="1" true="'), ('loop', '<loop value="v">'), ('if', '<if case="1">'),
+               ('eloop', '</loop>'), ('eif', '</if>'), ('else', '<else>'), ('rb', '}'), ('var', '{var:v}'), ('q', '"')]
+def nest_family(tier):
+    out = []
+    T = NEST_TOKENS
+    if tier == 'quick':
+        # an opener of each kind inside a loop, met by a closer of each kind
+        for on, ot in T[:5]:
+            for cn, ct in T[5:8]:
+                out.append(('loop.%s.%s' % (on, cn), '<loop value="v">' + ot + ct))
+        return out
+    for an, at in T:
+        for bn, bt in T:
+            out.append(('%s.%s' % (an, bn), at + bt))
+    for pn, pt in (T[3], T[4]):
+        for an, at in T:
+            for bn, bt in T:
+                out.append(('%s.%s.%s' % (pn, an, bn), pt + at + bt))
+    return out
